@@ -13,6 +13,44 @@ def short(n):
     return n.replace(PFX, '')
 
 
+class ForkRequest(Exception):
+    """the current instruction needs `term` concrete: fork one state per feasible value (DESIGN 3.5)"""
+
+    def __init__(s, term, reg, what):
+        s.term, s.reg, s.what = term, reg, what
+
+
+def subst_term(v, term, val):
+    if isinstance(v, Ptr):
+        return Ptr(v.obj, tuple(val if (is_sym(e) and e.eq(term)) else e for e in v.path))
+    if isinstance(v, Slice):
+        return Slice(v.obj, tuple(val if (is_sym(e) and e.eq(term)) else e for e in v.path),
+                     val if (is_sym(v.off) and v.off.eq(term)) else v.off, v.len, v.cap)
+    if is_sym(v) and v.eq(term):
+        return val
+    return v
+
+
+def sizeof(t):
+    x = ty(t)
+    k = x['kind']
+    if k == 'int':
+        return x['bits'] // 8
+    if k == 'bool':
+        return 1
+    if k in ('ptr', 'map', 'chan', 'func', 'unsafeptr', 'float'):
+        return 8
+    if k in ('iface', 'string'):
+        return 16
+    if k == 'slice':
+        return 24
+    if k == 'array':
+        return x['len'] * sizeof(x['elem'])
+    if k in ('struct', 'tuple'):
+        return sum(sizeof(f['type']) for f in (x.get('fields') or []))
+    return 8
+
+
 class Ctx:
     """per-instance context: options, statistics, results"""
 
@@ -168,7 +206,8 @@ class Interp:
         label = c.harness + '/' + label
         rec = c.vcs.get(label)
         if rec is None:
-            rec = c.vcs[label] = {'n': 0, 'solved': 0, 'status': 'unsat', 'ms': 0, 'model': None, 'info': info}
+            rec = c.vcs[label] = {'n': 0, 'solved': 0, 'status': 'unsat', 'ms': 0, 'model': None,
+                                  'info': {k: v for k, v in (info or {}).items() if k != 'prefer'} or None}
         rec['n'] += 1
         cond = to_bool(cond)
         if cond is True:
@@ -209,6 +248,14 @@ class Interp:
             if rec['status'] != 'sat':
                 rec['status'] = 'sat'
                 rec['model'] = s.extract(st, fs.model())
+                if info and info.get('prefer') is not None:
+                    # a more dramatic witness if there is one (e.g. a huge allocation)
+                    fs.add(info['prefer'])
+                    if fs.check() == z3.sat:
+                        rec['model'] = s.extract(st, fs.model())
+                    else:
+                        info = dict(info, alloc_bytes=0)
+                rec['info'] = {k: v for k, v in (info or {}).items() if k != 'prefer'}
             st.pc.append(cond)
             if not s.feasible(st.pc, None):
                 raise PathEnd()
@@ -229,16 +276,50 @@ class Interp:
         s.ctx.obj_types[oid] = t
         return oid
 
-    def load(s, st, ptr, label='deref'):
+    def load(s, st, ptr, label='deref', reg=None):
         if ptr is None:
             s.violated(st, label)
-        v, _ = get_path(st.heap[ptr.obj], ptr.path, s.ctx.obj_types[ptr.obj])
+        try:
+            v, _ = get_path(st.heap[ptr.obj], ptr.path, s.ctx.obj_types[ptr.obj])
+        except Unmergeable:
+            sym = [e for e in ptr.path if is_sym(e)]
+            if reg is None or not sym:
+                raise Unsupported('load of non-mergeable value through a symbolic place')
+            raise ForkRequest(sym[0], reg, 'load through symbolic index')
         return v
 
-    def store(s, st, ptr, val, label='store'):
+    def store(s, st, ptr, val, label='store', reg=None):
         if ptr is None:
             s.violated(st, label)
-        st.heap[ptr.obj] = set_path(st.heap[ptr.obj], ptr.path, val, s.ctx.obj_types[ptr.obj])
+        try:
+            st.heap[ptr.obj] = set_path(st.heap[ptr.obj], ptr.path, val, s.ctx.obj_types[ptr.obj])
+        except Unmergeable:
+            sym = [e for e in ptr.path if is_sym(e)]
+            if reg is None or not sym:
+                raise Unsupported('store of non-mergeable value through a symbolic place')
+            raise ForkRequest(sym[0], reg, 'store through symbolic index')
+
+    def enum_values(s, st, term, what):
+        """all feasible values of term under the path condition (at most concretize_k)"""
+        c = s.ctx
+        sv = z3.Solver()
+        sv.set('timeout', c.vc_timeout)
+        sv.add(*st.pc)
+        vals = []
+        while True:
+            c.solver_calls += 1
+            r = sv.check()
+            if r == z3.unsat:
+                break
+            if r != z3.sat:
+                raise Inconclusive('solver unknown while concretising ' + what)
+            v = sv.model().eval(term, model_completion=True).as_long()
+            vals.append(v)
+            if len(vals) > c.concretize_k:
+                raise Unsupported(f'more than {c.concretize_k} feasible values while concretising {what}')
+            sv.add(term != v)
+        c.concretizations[what] = max(c.concretizations.get(what, 0), len(vals))
+        return sorted(vals)
 
     def global_obj(s, name, st):
         g = s.ctx.globals
@@ -635,7 +716,27 @@ class Interp:
                         st = r[0][0]
                     fr.defers = []
                     continue
-                s.step(st, fr, ins)
+                try:
+                    s.step(st, fr, ins)
+                except ForkRequest as e:
+                    vals = s.enum_values(st, e.term, e.what + ' in ' + short(f['name']))
+                    outA, outL = [], []
+                    c.states += max(0, len(vals) - 1)
+                    c.forks += 1
+                    for v in vals:
+                        cst = st.fork()
+                        cst.pc.append(e.term == v)
+                        frc = Frame(f, dict(fr.regs))
+                        frc.iters = dict(fr.iters)
+                        frc.defers = list(fr.defers)
+                        frc.regs[e.reg] = subst_term(frc.regs[e.reg], e.term, v)
+                        try:
+                            a, l = s.run_region(cst, frc, blk, pred, stop, start=ii - 1, skip_phi=True)
+                            outA += a
+                            outL += l
+                        except PathEnd:
+                            pass
+                    return outA, outL
             else:
                 raise Exception('block fell through: ' + f['name'])
 
@@ -733,7 +834,7 @@ class Interp:
             x = s.operand(fr, A[0], st)
             o = ins['x']['op']
             if o == '*':
-                R[ins['reg']] = s.load(st, x, s.lbl(fr, ins))
+                R[ins['reg']] = s.load(st, x, s.lbl(fr, ins), A[0][2:] if A[0][0] == 'r' else None)
             elif o == '!':
                 R[ins['reg']] = Not(x)
             elif o == '-':
@@ -756,7 +857,7 @@ class Interp:
         elif op == 'Store':
             p = s.operand(fr, A[0], st)
             v = s.operand(fr, A[1], st)
-            s.store(st, p, v, s.lbl(fr, ins))
+            s.store(st, p, v, s.lbl(fr, ins), A[0][2:] if A[0][0] == 'r' else None)
         elif op == 'FieldAddr':
             p = s.operand(fr, A[0], st)
             if p is None:
@@ -929,7 +1030,8 @@ class Interp:
                 ln, cp = ln2.as_long(), cp2.as_long()
         if is_sym(ln) or is_sym(cp):
             lim = st.alloc_limit if st.alloc_limit is not None else s.ctx.alloc_limit
-            s.vc(st, And(And(sge(ln, 0), sle(ln, cp)), sle(cp, lim)), label, {'alloc': True})
+            s.vc(st, And(And(sge(ln, 0), sle(ln, cp)), sle(cp, lim)), label,
+                 {'alloc': True, 'alloc_bytes': max(lim, 1 << 16) * sizeof(et) // 2, 'prefer': z3.Or(bv(cp, 64) < 0, bv(cp, 64) >= (1 << 16))})
             oid = s.new_obj(st, tuple(zero(et) for _ in range(lim)), arr_type(et, lim))
             return Slice(oid, (), 0, ln, cp)
         if tosigned(ln, 64) < 0 or tosigned(cp, 64) < tosigned(ln, 64):
